@@ -1094,8 +1094,14 @@ func (p *Parser) ParseFunctionCall() (*ast.FunctionCallStatement, error) {
 
 // caseLabel is the label of a case clause without the comments around it
 func caseLabel(exp ast.Expression) string {
-	if s, ok := exp.(*ast.String); ok {
-		return s.Value
+	switch t := exp.(type) {
+	case *ast.String:
+		return t.Value
+	case *ast.InfixExpression:
+		// concatenated strings: the comments between the operands are no part of the label
+		return caseLabel(t.Left) + " " + t.Operator + " " + caseLabel(t.Right)
+	case *ast.GroupedExpression:
+		return "(" + caseLabel(t.Right) + ")"
 	}
 	return exp.String()
 }
